@@ -58,7 +58,8 @@ def parseTok (d : DState) (s : String) : Option (Option Presented) :=
   | ["Gbad", _] => some (some .malformed)
   | ["Graw", h] => do
     let raw ← hexStr? h
-    if raw.length < b64Min then some (some .malformed)
+    if raw.length = 0 then some none   -- empty header value = no token
+    else if raw.length < b64Min then some (some .malformed)
     else some (some (.forged (raw.headD 0).toNat))
   | ["S", w, id, srv, sid] => do
     let w ← w.toNat?
@@ -95,7 +96,8 @@ def parseTok (d : DState) (s : String) : Option (Option Presented) :=
           else if m.startsWith "flip" then some (some (.forged 1))
           else if m.startsWith "trunc" then do
             let n ← (m.drop 5).toNat?
-            if n < b64Min then some (some .malformed) else some (some (.forged 1))
+            if n = 0 then some none
+            else if n < b64Min then some (some .malformed) else some (some (.forged 1))
           else none
       else none
     | _ => none
@@ -133,7 +135,7 @@ def sidOfUid (d : DState) (u : Nat) : String :=
 def resStr : Res → String
   | .openOk => "ok" | .openNoAccept => "noaccept" | .openBound => "bound" | .openDraining => "draining"
   | .openSealFail => "sealfail" | .rolledBack => "sealfail"
-  | .closeHit => "hit" | .closeMiss => "miss" | .closeNoSession => "nosess"
+  | .closeHit => "hit" | .closeMiss => "miss" | .closeNoSession => "miss"
   | _ => "?"
 
 /-- Run thread `t` until it is done, waits for an entry lock, or reaches a `b` in its handler. -/
@@ -334,7 +336,7 @@ def step (d0 : DState) (ws : List String) : DState × String :=
     | some i => (d, hexOfBytes (aadOf i) ++ " " ++ hexOfBytes (pkeyOf i))
     | none => (d0, "bad-op")
   | ["plain", srv, sid] =>
-    match hexStr? srv, hexStr? sid with
+    match parseHexArg srv, parseHexArg sid with
     | some srv, some sid =>
       match encodePlain 0 srv sid 0 with
       | some p =>
@@ -344,7 +346,7 @@ def step (d0 : DState) (ws : List String) : DState × String :=
       | none => (d, "err:too-long")
     | _, _ => (d0, "bad-op")
   | ["parse", plain] =>
-    match hexStr? plain with
+    match parseHexArg plain with
     | some p =>
       (d, match decodePlain p with
         | some (a, b, _) => hexOfBytes a ++ "/" ++ hexOfBytes b
